@@ -25,6 +25,8 @@ Atoms ==
      ibig1 |-> [ty |-> "int"],       \* 2**53: carried as a string
      inbig1 |-> [ty |-> "int"],      \* -(2**53)
      ihuge |-> [ty |-> "int"],       \* 2**64
+     ivast |-> [ty |-> "int"],       \* 16**4000 - 1: more digits than str()/int() accept (4300) on current interpreters
+     invast |-> [ty |-> "int"],      \* -(10**5000) - 7
      true |-> [ty |-> "bool"], false |-> [ty |-> "bool"],
      f0 |-> [ty |-> "float"], fm0 |-> [ty |-> "float"], f1 |-> [ty |-> "float"], f15 |-> [ty |-> "float"],
      nan |-> [ty |-> "float"], nan2 |-> [ty |-> "float"], inf |-> [ty |-> "float"], ninf |-> [ty |-> "float"],
@@ -74,7 +76,7 @@ RECURSIVE ToJson(_)
 ToJson(t) ==
     IF IsAtom(t) THEN
         LET a == t[2] IN
-        CASE Atoms[a].ty = "int" -> (IF a \in {"ibig1", "inbig1", "ihuge"} THEN Obj1("int", <<"s", a>>) ELSE <<"i", a>>)
+        CASE Atoms[a].ty = "int" -> (IF a \in {"ibig1", "inbig1", "ihuge", "ivast", "invast"} THEN Obj1("int", <<"s", a>>) ELSE <<"i", a>>)
           [] Atoms[a].ty = "bool" -> <<"b", a>>
           [] Atoms[a].ty = "float" -> JsonOfFloat(a)
           [] Atoms[a].ty = "str" -> (IF a \in {"ssurr", "ssurr2", "spair"} THEN Obj1("string", <<"s", "repr:" \o a>>) ELSE <<"s", a>>)
